@@ -114,6 +114,10 @@ def decide(prop, tier, seed, jobs_n, only=None, verbose=False):
         if j.get("runner", "vkit.chworker") == "vkit.chworker" and not j.get("no_twin"):
             tj = dict(j, twin=True, timeout=min(120, float(j.get("timeout", 30))))
             jobs.append(tj)
+    smoke = float(os.environ.get("VERIF_SMOKE", "0") or 0)
+    if smoke:      # development aid: cap every shard's budget to look for harness errors in a tier's configuration quickly
+        for j in jobs:
+            j["timeout"] = min(float(j.get("timeout", 30)), smoke)
     # long jobs first
     order = sorted(range(len(jobs)), key=lambda i: -float(jobs[i].get("timeout", 30)) * float(jobs[i].get("weight", 1))
                    * (0.2 if jobs[i].get("twin") else 1))
@@ -242,8 +246,9 @@ def decide(prop, tier, seed, jobs_n, only=None, verbose=False):
         "wall_s": round(wall, 1),
         "violations": len(violations),
     }
-    os.makedirs(os.path.join(HERE, "evidence"), exist_ok=True)
-    with open(os.path.join(HERE, "evidence", prop + ".json"), "w") as f:
+    evdir = os.path.join(HERE, "evidence") if not os.environ.get("VERIF_SMOKE") else "/tmp/verif_smoke_evidence"
+    os.makedirs(evdir, exist_ok=True)
+    with open(os.path.join(evdir, prop + ".json"), "w") as f:
         json.dump(ev, f, indent=1)
 
     for line in known_lines:
